@@ -4,8 +4,19 @@ Each entry: (name, property ids expected to catch it, file, old text, new text).
 M = []
 
 
-def m(name, props, file, old, new):
-    M.append({'name': name, 'props': props, 'file': file, 'old': old, 'new': new})
+def m(name, props, file, old, new, equivalent=None):
+    """equivalent: why the break cannot be observed through the property (an expected miss)."""
+    M.append({'name': name, 'props': props, 'file': file, 'old': old, 'new': new, 'equivalent': equivalent})
+
+
+EQUIVALENT = {
+    'codec-31bit-mask-dropped-in-lease': 'the mask only matters for values above 2^31-1, which the generator (and the property) keep out of range',
+    'codec-partial-write-skips-empty-data-check': 'frames flagged metadata_only never carry data, so the dropped condition is never decisive',
+    'send-complete-before-last-element-async-gen': 'the added return is taken exactly where the generating loop ends anyway (after the last element of a credit batch)',
+    'keepalive-on-nonzero-stream': 'the library only ever builds KEEPALIVE frames with empty data through this builder, so the stream id stays 0',
+    'async-gen-not-closed-on-cancel': 'wrong expectation: production stops and on_cancel is delivered; only the generator object is left unclosed, which no clause of C09 observes',
+    'keepalive-task-survives-close': 'since fix 50419e6 RSocketClient._stop_tasks cancels the keepalive task itself; the second cancellation in _finally_sender is redundant',
+}
 
 
 # ---- C02 codec
@@ -72,7 +83,8 @@ m('rr-future-invalid-state (revert fix)', ['C07', 'C08'], 'rsocket/handlers/requ
   "        if self._future.done():\n            # cancelled by the application before its done callback ran: the stream is over, nothing to resolve\n            self._finish_stream()\n        elif isinstance(frame, PayloadFrame):",
   "        if isinstance(frame, PayloadFrame):")
 m('stream-not-finished-on-complete', ['C07', 'C10'], 'rsocket/handlers/request_stream_requester.py',
-  "            if frame.flags_complete:\n                self._finish_stream()", "            if frame.flags_complete and not frame.flags_next:\n                self._finish_stream()")
+  '            finally:  # the stream has terminated even if the subscriber raises\n                if frame.flags_complete:\n                    self._finish_stream()',
+  '            finally:  # the stream has terminated even if the subscriber raises\n                if frame.flags_complete and not frame.flags_next:\n                    self._finish_stream()')
 # ---- C08
 m('late-request-n-after-finish (revert fix)', ['C08'], 'rsocket/streams/stream_handler.py',
   "        if self._is_finished:\n            return  # late request(n) by the application: nothing may be sent on a finished stream\n\n", "")
@@ -123,8 +135,8 @@ m('lease-counter-off-by-one', ['C14'], 'rsocket/lease.py',
 m('lease-expiry-inclusive', ['C14'], 'rsocket/lease.py',
   "        if self._lease_created_at + self.maximum_lease_time <= datetime.now():", "        if self._lease_created_at + self.maximum_lease_time < datetime.now():")
 m('lease-queue-lifo', ['C14'], 'rsocket/rsocket_base.py',
-  "            self.send_frame(self._request_queue.get_nowait())\n            self._request_queue.task_done()",
-  "            self.send_frame(self._request_queue._queue.pop())\n            self._request_queue.task_done()")
+  '            request_frame = self._request_queue.get_nowait()\n',
+  '            request_frame = self._request_queue._queue.pop()\n')
 m('lease-ttl-seconds (revert ms fix)', ['C14', 'C16'], 'rsocket/datetime_helpers.py',
   "    return round(period.total_seconds() * 1000)  # total_seconds() already includes the sub-second part",
   "    return round(period.total_seconds() * 1000) + round(period.microseconds / 1000)")
@@ -199,16 +211,16 @@ m('credit-queue-drained-twice', ['C06'], 'rsocket/streams/stream_from_generator.
 m('rx-backpressure-feedback-off', ['C06', 'C20'], 'rsocket/reactivex/back_pressure_publisher.py',
   "    def request(self, n: int):\n        self._feedback.on_next(n)", "    def request(self, n: int):\n        self._feedback.on_next(n if n != 3 else 4)")
 m('stream-requester-error-does-not-finish', ['C10'], 'rsocket/handlers/request_stream_requester.py',
-  "            self._subscriber.on_error(error_frame_to_exception(frame))\n            self._finish_stream()",
-  "            self._subscriber.on_error(error_frame_to_exception(frame))\n            if frame.error_code != 0x201:\n                self._finish_stream()")
+  '            try:\n                self._subscriber.on_error(error_frame_to_exception(frame))\n            finally:\n                self._finish_stream()',
+  '            try:\n                self._subscriber.on_error(error_frame_to_exception(frame))\n            finally:\n                if frame.error_code != 0x201:\n                    self._finish_stream()')
 m('rr-requester-error-does-not-finish', ['C10'], 'rsocket/handlers/request_response_requester.py',
   "            self._future.set_exception(error_frame_to_exception(frame))\n            self._finish_stream()",
   "            self._future.set_exception(error_frame_to_exception(frame))")
 m('responder-stream-flag-complete-not-finished', ['C10'], 'rsocket/handlers/request_stream_responder.py',
   "        if is_complete:\n            self.socket.finish_stream(self.stream_id)", "        if is_complete and value.data:\n            self.socket.finish_stream(self.stream_id)")
 m('double-on-complete-stream', ['C07'], 'rsocket/handlers/request_stream_requester.py',
-  "            elif frame.flags_complete:\n                self._subscriber.on_complete()\n\n            if frame.flags_complete:\n                self._finish_stream()",
-  "            if frame.flags_complete:\n                self._subscriber.on_complete()\n                self._finish_stream()")
+  '                elif frame.flags_complete:\n                    self._subscriber.on_complete()\n            finally:  # the stream has terminated even if the subscriber raises\n                if frame.flags_complete:\n                    self._finish_stream()',
+  '            finally:  # the stream has terminated even if the subscriber raises\n                if frame.flags_complete:\n                    self._subscriber.on_complete()\n                    self._finish_stream()')
 m('channel-complete-at-request-when-n-is-max', ['C01'], 'rsocket/handlers/request_cahnnel_responder.py',
   "            if frame.flags_complete:\n                self._complete_remote_subscriber()", "            if frame.flags_complete or frame.initial_request_n == 0x7FFFFFFF:\n                self._complete_remote_subscriber()")
 m('cancel-sent-by-stream-responder-on-error', ['C08'], 'rsocket/handlers/request_stream_responder.py',
@@ -269,3 +281,7 @@ m('close-does-not-fail-late-requests (revert fix)', ['C11'], 'rsocket/rsocket_ba
 m('terminal-callback-raise-leaves-stream (revert fix)', ['C07'], 'rsocket/handlers/request_stream_requester.py',
   "            try:\n                self._subscriber.on_error(error_frame_to_exception(frame))\n            finally:\n                self._finish_stream()",
   "            self._subscriber.on_error(error_frame_to_exception(frame))\n            self._finish_stream()")
+
+for _m in M:
+    if _m['name'] in EQUIVALENT:
+        _m['equivalent'] = EQUIVALENT[_m['name']]
